@@ -15,20 +15,32 @@ TRUSTED = ["model: coq/Model/Convolve.v (conv, cut/trim, splice/apply_epochs, co
            "np.searchsorted's contract on a sorted array (left = #{t < v}, right = #{t <= v}) is NumPy's (C08)",
            "PARTIAL (Butterworth): scipy.signal.sosfiltfilt is an unknown length-preserving (for linearity: linear) function F of the epoch's slice; "
            "the premises len_pres F / lin_op F are visible in the closed theorems C18_butter_*_partial",
-           "scipy.signal.convolve = np.convolve 'full' (direct method on the sizes used; scipy's FFT branch is SciPy's numerics, not modelled)",
+           "scipy.signal.convolve = np.convolve 'full' (direct method; scipy's FFT branch is SciPy's numerics, not modelled - it is exercised through the public "
+           "filters on a 12000-sample epoch with an 801-tap kernel and judged by the statement's relations to the tolerance)",
            "correspondence for the Butterworth bookkeeping patches pynapple.process.filtering.sosfiltfilt INSIDE the harness process by an "
-           "integer-valued stand-in (reverse + running sum); /repo is not modified"]
-ASSUMPTIONS = ["signals and kernels of the exact part are integer valued and small (sums exact in float64); sizes stay below SciPy's switch to FFT convolution",
-               "real-valued kernels (gaussian smooth, windowed sinc) and Butterworth linearity are compared to a tolerance: |difference| <= 1e-9 * (1 + max|operands|)",
-               "Butterworth: every epoch holds more samples than sosfiltfilt's padlen (SciPy's own precondition); cutoffs in (0.05, 0.45) * fs, orders 1..4",
+           "integer-valued stand-in (reverse + running sum); /repo is not modified",
+           "WHICH routine / coefficients the library uses is not part of the statement: 'each epoch == scipy sosfiltfilt on that epoch alone (bit-exact)', 'fs=None means the "
+           "series' rate', 'smooth == convolution with the documented gaussian window' and 'sinc low-pass == convolution with the blackman-windowed sinc' are checked as "
+           "CORRESPONDENCE (model instantiated with that F / window / kernel vs implementation; a mismatch is a disagreement, not a violation of the statement)"]
+ASSUMPTIONS = ["signals and kernels of the exact part are integer valued and small (sums exact in float64)",
+               "real-valued kernels (gaussian smooth, windowed sinc) and Butterworth linearity are compared to a tolerance: |difference| <= 1e-12 * (1 + max|operands|) "
+               "(largest deviation observed over three thorough runs: 7e-15 of that scale)",
+               "Butterworth: cutoffs in (0.05, 0.45) * fs, orders 1..4. An interval of the support holding NO sample must be left alone (as convolve does since cf7fba4): the call "
+               "raising is a violation with key op=butter, empty_epoch=True. An interval holding 1..padlen samples (SciPy's sosfiltfilt refuses such a slice) makes the whole call "
+               "raise too: reported with key short_epoch=True (a finding: one interval's length decides whether every other interval gets an output)",
                "the theorems are ring identities over Z; a rational kernel is an integer kernel over a common denominator u (float rounding of real kernels is outside the model)",
                "an epoch holding no sample is expected to be left alone (nothing to convolve); the implementation raising there is reported as a violation "
-               "with key empty_epoch=True"]
+               "with key empty_epoch=True",
+               "trim='both' with an EVEN kernel removes k-1 (odd) entries: the statement does not say which side loses the extra one, so both splits are accepted "
+               "(the same one in the whole call); the model and the code cut (k-1)//2 on the left, which the model comparison pins",
+               "convolve(k, ep=ep) is read as restrict(ep) followed by convolve: the 'input' whose timestamps and support are kept is the series restricted to ep",
+               "a series (or a series restricted to ep) holding no sample at all has, in pynapple, an EMPTY time support (base-class invariant: zero epochs, strictly outside "
+               "'one or many epochs'); convolve must still not raise on it: expected result = no timestamp, empty support; key no_sample=True"]
 
 U = 1953125  # 2^-9 s in ticks
 TRIMS = ("left", "right", "both")
 MODE = {"left": 0, "right": 1, "both": 2}
-TOL = 1e-9
+TOL = 1e-12
 
 
 def _nap():
@@ -44,15 +56,17 @@ def full_conv(w, k):
     return [sum(w[i] * k[n - i] for i in range(len(w)) if 0 <= n - i < len(k)) for n in range(len(w) + len(k) - 1)]
 
 
-def trimmed(w, k, trim):
-    """full convolution of the epoch's samples, trimmed on the requested side back to len(w) entries"""
+def trimmed(w, k, trim, ceil_split=False):
+    """full convolution of the epoch's samples, trimmed on the requested side back to len(w) entries.
+    'both' removes k-1 entries, half on each side; for an EVEN kernel k-1 is odd and the statement does not say which side
+    loses the extra entry: ceil_split=False cuts (k-1)//2 on the left (what the model and the code do), True cuts k//2"""
     f = full_conv(w, k)
     t, n = len(w), len(k)
     if trim == "left":        # the left (first) k-1 entries are cut
         return f[n - 1:]
     if trim == "right":       # the right (last) k-1 entries are cut
         return f[:t]
-    c = (n - 1) // 2
+    c = n // 2 if ceil_split else (n - 1) // 2
     return f[c:c + t]
 
 
@@ -60,11 +74,11 @@ def epoch_rows(ts, ep):
     return [[i for i, t in enumerate(ts) if s <= t <= e] for s, e in ep]
 
 
-def oracle_convolve(ts, col, ep, k, trim):
+def oracle_convolve(ts, col, ep, k, trim, ceil_split=False):
     """expected column: every epoch's rows replaced by the trimmed full convolution of those rows alone"""
     out = [0] * len(ts)
     for rows in epoch_rows(ts, ep):
-        r = trimmed([col[i] for i in rows], k, trim)
+        r = trimmed([col[i] for i in rows], k, trim, ceil_split)
         for i, v in zip(rows, r):
             out[i] = v
     return out
@@ -144,8 +158,13 @@ def part_exhaustive(res, nap, tier, rng):
         m = parse(out[n])
         if m[0] != ts_in or (m[1] if len(m) > 1 else []) != exp:
             res.disagreements.append({"op": "convolve(model vs statement)", "input": inp, "model": m, "expected": [ts_in, exp]})
+        # 'both' with an even kernel: the statement leaves open which side loses the extra entry; either split is accepted (one per call)
+        alt = oracle_convolve(ts_in, col_in, ep, k, trim, ceil_split=True) if (trim == "both" and len(k) % 2 == 0) else exp
+        # a series holding no sample at all has, in pynapple, an EMPTY time support (base-class invariant); the statement's
+        # "input's timestamps and time support" is then: no timestamp, empty support (= what x.restrict(ep) has)
+        esup = list(ep) if ts_in else []
         for route in ("support", "ep_argument"):
-            kk = {"op": "convolve", "route": route, "empty_epoch": bool(has_empty)}
+            kk = {"op": "convolve", "route": route, "empty_epoch": bool(has_empty), "no_sample": not ts_in}
             try:
                 if route == "support":
                     r = xobj_a[(tk, ek)].convolve(np.array(k, dtype=float), trim=trim)
@@ -153,20 +172,24 @@ def part_exhaustive(res, nap, tier, rng):
                     r = xobj_b[tk].convolve(np.array(k, dtype=float), ep=epo, trim=trim)
             except Exception as ex:
                 if not ts_in:
-                    res.count("empty_series_raises")      # a series without any sample: nothing is claimed about it
-                    continue
-                res.violations.append({"key": dict(kk, part="exception"), "what": "convolve raised %s: %s" % (type(ex).__name__, str(ex)[:80]),
+                    res.count("no_sample_raises")
+                res.violations.append({"key": dict(kk, part="exception", exception=type(ex).__name__),
+                                       "what": "convolve raised %s: %s" % (type(ex).__name__, str(ex)[:80]),
                                        "input": inp, "impl": type(ex).__name__, "expected": exp})
                 continue
+            if not ts_in:
+                res.count("no_sample_ok")
             got_t = [C.to_ns(t) for t in r.t]
             got = ints(r.values)
-            if got_t != ts_in or support_of(r) != list(ep) or type(r).__name__ != "Tsd":
+            if got_t != ts_in or support_of(r) != esup or type(r).__name__ != "Tsd":
                 res.violations.append({"key": dict(kk, part="time_axis"), "what": "convolve changed the timestamps / time support / type", "input": inp,
-                                       "impl": [got_t, support_of(r)], "expected": [ts_in, list(ep)]})
-            elif got != exp:
+                                       "impl": [got_t, support_of(r)], "expected": [ts_in, esup]})
+            elif got != exp and got != alt:
                 res.violations.append({"key": dict(kk, part="values", trim=trim, k_even=len(k) % 2 == 0, short_epoch=bool(short)),
                                        "what": "an epoch's output is not the full convolution of that epoch's samples trimmed on the requested side",
                                        "input": inp, "impl": got, "expected": exp})
+            elif alt != exp:
+                res.count("even_both_extra_entry_cut_on_the_right" if got == exp else "even_both_extra_entry_cut_on_the_left")
             if got != (m[1] if len(m) > 1 else []) or got_t != m[0]:
                 res.disagreements.append({"op": "convolve", "route": route, "input": inp, "impl": [got_t, got], "model": m})
         if n % 4001 == 0:
@@ -276,7 +299,10 @@ def part_random(res, nap, tier, rng):
         if got_flat is not None:
             g3 = np.array(got_flat).reshape(T, nc, nk)
             got = [[[int(v) for v in g3[:, i, j]] for j in range(nk)] for i in range(nc)]
-        if got != exp:
+        alt = exp
+        if trim == "both" and klen % 2 == 0:      # even kernel: either side may lose the extra entry (the same side in the whole call)
+            alt = [[oracle_convolve(ts, data[i], ep, kern[j], trim, ceil_split=True) for j in range(nk)] for i in range(nc)]
+        if got != exp and got != alt:
             res.violations.append({"key": dict(kk, part="values", trim=trim, k_even=klen % 2 == 0, short_epoch=bool(short)),
                                    "what": "entry (column i, kernel column j) is not column i convolved per epoch with kernel column j, trimmed on the requested side",
                                    "input": inp, "impl": got, "expected": exp})
@@ -362,142 +388,219 @@ def axis_ok(r, x, ts, ep):
             and type(r) is type(x) and (not hasattr(x, "columns") or list(r.columns) == list(x.columns)))
 
 
-def part_smooth_sinc(res, nap, tier, rng):
-    """real-valued kernels through the public API: smooth, windowed-sinc filters (to the declared tolerance)"""
-    N = 400 if tier == "quick" else 4000
+def _others_overwritten(rng, data, rows, q, T):
+    return [[d[i] if i in rows[q] else rng.randint(-50, 50) for i in range(T)] for d in data]
+
+
+def part_smooth_sinc(res, nap, tier, rng, variant="small"):
+    """real-valued kernels through the public API: smooth, windowed-sinc filters (to the declared tolerance).
+    variant "small": transition bandwidth 0.1..0.5 (9..41 taps), epochs of 1..25 samples;
+    "default_bw": the DEFAULT transition bandwidth (0.02 -> 201 taps) and smooth's default size_factor on epochs of 150..440 samples;
+    "fft": transition bandwidth 0.005 (801 taps) on an epoch of 12000 samples, where scipy.signal.convolve switches to its FFT method"""
+    from scipy import signal
+    long_kernel = variant != "small"
+    N = {"small": (400, 4000), "default_bw": (10, 100), "fft": (2, 12)}[variant][0 if tier == "quick" else 1]
+    TB = {"default_bw": 0.02, "fft": 0.005}
+    fs = 1e9 / (2 * U)
+    SINC = (("lowpass", nap.apply_lowpass_filter), ("highpass", nap.apply_highpass_filter),
+            ("bandpass", nap.apply_bandpass_filter), ("bandstop", nap.apply_bandstop_filter))
     for c in range(N):
-        ts, ep = regular_case(rng, rng.choice([1, 2, 3, 8]))
-        kind = rng.choice(["Tsd", "TsdFrame", "TsdTensor"])
+        if variant == "fft":
+            ts, ep = regular_case(rng, 12000, emax=1)
+        else:
+            ts, ep = regular_case(rng, rng.choice([150, 260, 420]) if long_kernel else rng.choice([1, 2, 3, 8]))
+        if long_kernel and rng.random() < 0.5:      # plus one epoch much shorter than the 201-tap kernel
+            t0 = ts[-1] + 5 * 2 * U
+            extra = [t0 + j * 2 * U for j in range(rng.choice([1, 7, 40]))]
+            ts, ep = ts + extra, ep + [(extra[0] - U // 5, extra[-1] + U // 5)]
+        kind = rng.choice(["Tsd", "TsdFrame", "TsdTensor"]) if variant != "fft" else "Tsd"
         dshape = {"Tsd": (), "TsdFrame": (2,), "TsdTensor": (2, 2)}[kind]
         nc = int(np.prod(dshape)) if dshape else 1
         data = [[rng.randint(-9, 9) for _ in ts] for _ in range(nc)]
+        d2 = [[rng.randint(-9, 9) for _ in ts] for _ in range(nc)]
+        a, b = rng.randint(-3, 3), rng.randint(-3, 3)
         epo = iset(nap, ep)
         x = build_any(nap, kind, ts, data, epo, dshape)
+        y = build_any(nap, kind, ts, d2, epo, dshape)
+        z = build_any(nap, kind, ts, [[a * u + b * v for u, v in zip(p, q_)] for p, q_ in zip(data, d2)], epo, dshape)
         rows = epoch_rows(ts, ep)
         T = len(ts)
-        scale = 9.0 * 50
-        inp = {"ts": ts, "ep": ep, "kind": kind, "data": data}
-        res.case(("smooth_sinc", c, kind, len(ep)), nontrivial=len(ep) > 1)
-        res.count("smooth_sinc_cases")
+        scale = 9.0
+        inp = {"ts": ts, "ep": ep, "kind": kind, "data": data, "variant": variant}
+        res.case(("smooth_sinc", variant, c, kind, len(ep)), nontrivial=len(ep) > 1)
+        res.count("smooth_sinc_cases_" + variant)
+        q = rng.randrange(len(ep))
+        x3 = build_any(nap, kind, ts, _others_overwritten(rng, data, rows, q, T), epo, dshape) if len(ep) > 1 else None
         # ---- smooth
-        std_s = rng.choice([1, 2, 3]) * 2 * U / 1e9 * 1.0001
-        ws = rng.choice([None, 5 * 2 * U / 1e9 * 1.0001, 8 * 2 * U / 1e9 * 1.0001])
+        step = 2 * U / 1e9 * 1.0001
+        std_s = rng.choice([1, 2, 3]) * step
+        ws = rng.choice([None, 5 * step, 8 * step])
         sf = rng.choice([3, 4])
+        if long_kernel:
+            std_s, ws, sf = rng.choice([2, 3]) * step, None, (100 if variant == "default_bw" else 400)   # 100 is the default: 201 / 301 taps; 400: 801 / 1201
         norm = rng.random() < 0.7
-        kk = {"op": "smooth", "kind": kind}
+        kk = {"op": "smooth", "kind": kind, "variant": variant}
+        sm = dict(windowsize=ws, size_factor=sf, norm=norm)
         try:
-            r = x.smooth(std_s, windowsize=ws, size_factor=sf, norm=norm)
-            w = gauss_window(x.rate, std_s, ws, sf, norm)
+            r = x.smooth(std_s, **sm)
             if not axis_ok(r, x, ts, ep):
                 res.violations.append({"key": dict(kk, part="time_axis"), "what": "smooth changed timestamps / support / shape / columns", "input": inp})
             else:
+                if x3 is not None and not np.array_equal(x3.smooth(std_s, **sm).values[rows[q]], r.values[rows[q]]):
+                    res.violations.append({"key": dict(kk, part="independence"), "what": "smooth: an epoch's output changed with other epochs' data", "input": inp})
+                lz, ly = z.smooth(std_s, **sm).values, y.smooth(std_s, **sm).values
+                if not close(lz, a * r.values + b * ly, scale * 7 * (1 if norm else 10)):
+                    res.violations.append({"key": dict(kk, part="linearity"), "what": "smooth is not linear in the signal (beyond the declared tolerance)",
+                                           "input": dict(inp, data2=d2, a=a, b=b, std=std_s, **sm)})
+                # correspondence with the model's smooth_epochs, window := the gaussian window the docstring promises (not part of the statement)
+                w = gauss_window(x.rate, std_s, ws, sf, norm)
+                if any(signal.choose_conv_method(np.zeros(len(rw)), np.zeros(len(w))) != "direct" for rw in rows if rw):
+                    res.count("scipy_fft_method_smooth")
                 g = np.asarray(r.values).reshape(T, nc)
                 for i in range(nc):
                     e = np.zeros(T)
                     for rw in rows:
-                        f = np.convolve(np.array([data[i][j] for j in rw], dtype=float), w)
+                        f = signal.convolve(np.array([data[i][j] for j in rw], dtype=float), w)
                         cc = (len(w) - 1) // 2
                         e[rw] = f[cc:cc + len(rw)]
-                    if not close(g[:, i], e, scale):
-                        res.violations.append({"key": dict(kk, part="values"), "what": "smooth is not the per-epoch convolution with the gaussian window (both-trimmed)",
-                                               "input": dict(inp, std=std_s, windowsize=ws, size_factor=sf, norm=norm), "impl": g[:, i].tolist(), "expected": e.tolist()})
+                    if not close(g[:, i], e, scale * (1 if norm else 10)):
+                        res.disagreements.append({"op": "smooth(window := documented gaussian)", "input": dict(inp, std=std_s, **sm),
+                                                  "impl": g[:, i].tolist()[:40], "model": e.tolist()[:40]})
                         break
-                if len(ep) > 1:
-                    q = rng.randrange(len(ep))
-                    d3 = [[d[i] if i in rows[q] else rng.randint(-50, 50) for i in range(T)] for d in data]
-                    r3 = build_any(nap, kind, ts, d3, epo, dshape).smooth(std_s, windowsize=ws, size_factor=sf, norm=norm).values
-                    if not np.array_equal(r3[rows[q]], r.values[rows[q]]):
-                        res.violations.append({"key": dict(kk, part="independence"), "what": "smooth: an epoch's output changed with other epochs' data", "input": inp})
         except Exception as ex:
-            res.violations.append({"key": dict(kk, part="exception"), "what": "smooth raised %s: %s" % (type(ex).__name__, str(ex)[:80]),
-                                   "input": dict(inp, std=std_s, windowsize=ws, size_factor=sf)})
+            res.violations.append({"key": dict(kk, part="exception", exception=type(ex).__name__), "what": "smooth raised %s: %s" % (type(ex).__name__, str(ex)[:80]),
+                                   "input": dict(inp, std=std_s, **sm)})
         # ---- windowed sinc, four types
-        fs = 1e9 / (2 * U)
         tb = rng.choice([0.5, 0.4, 0.25, 0.1])
         f1 = rng.choice([0.08, 0.15, 0.22]) * fs
         f2 = f1 + rng.choice([0.1, 0.2]) * fs
-        kk = {"op": "sinc", "kind": kind}
+        kw = {"transition_bandwidth": tb}
+        if long_kernel:
+            tb = TB[variant]
+            kw = {} if variant == "default_bw" else {"transition_bandwidth": tb}
+        ntaps = len(sinc_lowpass(f1, fs, tb))
+        if any(signal.choose_conv_method(np.zeros(len(rw)), np.zeros(ntaps)) != "direct" for rw in rows if rw):
+            res.count("scipy_fft_method_sinc")
+        if any(0 < len(rw) < ntaps for rw in rows):
+            res.count("sinc_epoch_shorter_than_kernel")
+        kk = {"op": "sinc", "kind": kind, "variant": variant}
         try:
             use_fs = rng.choice([fs, None]) if len(ep) == 1 else fs
-            lp = nap.apply_lowpass_filter(x, f1, fs=use_fs, mode="sinc", transition_bandwidth=tb)
-            hp = nap.apply_highpass_filter(x, f1, fs=use_fs, mode="sinc", transition_bandwidth=tb)
             # the band limits in every admissible form; ONE object is passed to both complementary calls, as a user would
             band = rng.choice([lambda: (f1, f2), lambda: [f1, f2], lambda: np.array([f1, f2])])()
-            bp = nap.apply_bandpass_filter(x, band, fs=fs, mode="sinc", transition_bandwidth=tb)
-            bs = nap.apply_bandstop_filter(x, band, fs=fs, mode="sinc", transition_bandwidth=tb)
-            for nm, r in (("lowpass", lp), ("highpass", hp), ("bandpass", bp), ("bandstop", bs)):
+            cut = {"lowpass": f1, "highpass": f1, "bandpass": band, "bandstop": band}
+            use = {"lowpass": use_fs, "highpass": use_fs, "bandpass": fs, "bandstop": fs}
+            out = {nm: f(x, cut[nm], fs=use[nm], mode="sinc", **kw) for nm, f in SINC}
+            lp, hp, bp, bs = (out[nm] for nm, _ in SINC)
+            for nm, f in SINC:
+                r = out[nm]
                 if not axis_ok(r, x, ts, ep):
                     res.violations.append({"key": dict(kk, part="time_axis", filter=nm), "what": "sinc filter changed timestamps / support / shape / columns", "input": inp})
+                    continue
+                if x3 is not None and not np.array_equal(f(x3, cut[nm], fs=use[nm], mode="sinc", **kw).values[rows[q]], r.values[rows[q]]):
+                    res.violations.append({"key": dict(kk, part="independence", filter=nm), "what": "sinc filter: an epoch's output changed with other epochs' data", "input": inp})
+                lz = f(z, cut[nm], fs=use[nm], mode="sinc", **kw).values
+                ly = f(y, cut[nm], fs=use[nm], mode="sinc", **kw).values
+                if not close(lz, a * r.values + b * ly, scale * 7):
+                    res.violations.append({"key": dict(kk, part="linearity", filter=nm), "what": "sinc filter is not linear in the signal (beyond the declared tolerance)",
+                                           "input": dict(inp, data2=d2, a=a, b=b, cutoff=str(cut[nm]), tb=kw)})
             if not close(lp.values + hp.values, x.values, scale):
                 res.violations.append({"key": dict(kk, part="lp_plus_hp"), "what": "windowed-sinc low-pass + high-pass outputs do not sum to the input",
-                                       "input": dict(inp, cutoff=f1, fs=fs, tb=tb), "impl": (lp.values + hp.values).ravel().tolist(), "expected": x.values.ravel().tolist()})
+                                       "input": dict(inp, cutoff=f1, fs=use_fs, tb=kw), "impl": (lp.values + hp.values).ravel().tolist()[:40], "expected": x.values.ravel().tolist()[:40]})
             if not close(bp.values + bs.values, x.values, scale):
                 res.violations.append({"key": dict(kk, part="bp_plus_bs"), "what": "windowed-sinc band-pass + band-stop outputs do not sum to the input",
-                                       "input": dict(inp, cutoff=[f1, f2], fs=fs, tb=tb)})
+                                       "input": dict(inp, cutoff=[f1, f2], fs=fs, tb=kw)})
             if use_fs is not None:
+                # correspondence with the model's sinc_filter, kernel := the documented blackman-windowed sinc (not part of the statement)
                 kl = sinc_lowpass(f1, fs, tb)
                 g = np.asarray(lp.values).reshape(T, nc)
                 for i in range(nc):
                     e = np.zeros(T)
                     for rw in rows:
-                        f = np.convolve(np.array([data[i][j] for j in rw], dtype=float), kl)
+                        f = signal.convolve(np.array([data[i][j] for j in rw], dtype=float), kl)
                         cc = (len(kl) - 1) // 2
                         e[rw] = f[cc:cc + len(rw)]
                     if not close(g[:, i], e, scale):
-                        res.violations.append({"key": dict(kk, part="values", filter="lowpass"), "what": "sinc low-pass is not the per-epoch convolution with the blackman-windowed sinc",
-                                               "input": dict(inp, cutoff=f1, fs=fs, tb=tb)})
+                        res.disagreements.append({"op": "sinc lowpass(kernel := documented windowed sinc)", "input": dict(inp, cutoff=f1, fs=fs, tb=kw)})
                         break
-            if len(ep) > 1:
-                q = rng.randrange(len(ep))
-                d3 = [[d[i] if i in rows[q] else rng.randint(-50, 50) for i in range(T)] for d in data]
-                x3 = build_any(nap, kind, ts, d3, epo, dshape)
-                for nm, f, cut, r in (("highpass", nap.apply_highpass_filter, f1, hp), ("bandpass", nap.apply_bandpass_filter, (f1, f2), bp)):
-                    r3 = f(x3, cut, fs=fs, mode="sinc", transition_bandwidth=tb).values
-                    if not np.array_equal(r3[rows[q]], r.values[rows[q]]):
-                        res.violations.append({"key": dict(kk, part="independence", filter=nm), "what": "sinc filter: an epoch's output changed with other epochs' data", "input": inp})
-            # linearity (tolerance)
-            d2 = [[rng.randint(-9, 9) for _ in ts] for _ in range(nc)]
-            a, b = rng.randint(-3, 3), rng.randint(-3, 3)
-            y = build_any(nap, kind, ts, d2, epo, dshape)
-            z = build_any(nap, kind, ts, [[a * u + b * v for u, v in zip(p, q_)] for p, q_ in zip(data, d2)], epo, dshape)
-            lz = nap.apply_bandstop_filter(z, (f1, f2), fs=fs, mode="sinc", transition_bandwidth=tb).values
-            ly = nap.apply_bandstop_filter(y, (f1, f2), fs=fs, mode="sinc", transition_bandwidth=tb).values
-            if not close(lz, a * bs.values + b * ly, scale * 10):
-                res.violations.append({"key": dict(kk, part="linearity"), "what": "sinc filter is not linear in the signal", "input": inp})
         except Exception as ex:
-            res.violations.append({"key": dict(kk, part="exception"), "what": "sinc filter raised %s: %s" % (type(ex).__name__, str(ex)[:80]),
-                                   "input": dict(inp, cutoff=[f1, f2], tb=tb)})
+            res.violations.append({"key": dict(kk, part="exception", exception=type(ex).__name__), "what": "sinc filter raised %s: %s" % (type(ex).__name__, str(ex)[:80]),
+                                   "input": dict(inp, cutoff=[f1, f2], tb=kw)})
         if c % 29 == 0:
-            res.sample({"smooth/sinc": True, "epochs": [len(r) for r in rows], "kind": kind, "tb": tb, "std": std_s})
+            res.sample({"smooth/sinc": variant, "epochs": [len(r) for r in rows], "kind": kind, "taps": ntaps, "std": std_s})
+
+
+def butter_padlen(sos):
+    """sosfiltfilt's default padlen (SciPy: the slice must hold MORE samples than this)"""
+    return int(3 * (2 * len(sos) + 1 - min((sos[:, 2] == 0).sum(), (sos[:, 5] == 0).sum())))
 
 
 def part_empty_epoch(res, nap, tier, rng):
-    """a time support with an interval holding no sample, through smooth / sinc / Butterworth (convolve itself: part 1)"""
+    """a time support with an interval holding no sample (smooth / sinc / Butterworth; convolve itself: part 1), and, for
+    Butterworth, an interval holding 1..padlen samples: "process each interval independently" - the other intervals' outputs
+    must not depend on it, so the call must not raise"""
+    from scipy.signal import butter
     fs = 1e9 / (2 * U)
-    for c in range(6 if tier == "quick" else 40):
+    FUN = {"lowpass": nap.apply_lowpass_filter, "highpass": nap.apply_highpass_filter,
+           "bandpass": nap.apply_bandpass_filter, "bandstop": nap.apply_bandstop_filter}
+    for c in range(12 if tier == "quick" else 80):
         ts, ep = regular_case(rng, 30, emax=2)
+        ftype = rng.choice(sorted(FUN))
+        order = rng.randint(1, 3)
+        cutoff = 0.2 * fs if ftype in ("lowpass", "highpass") else (0.1 * fs, 0.2 * fs)
+        padlen = butter_padlen(butter(order, cutoff, btype=ftype, fs=fs, output="sos"))
+        nshort = 0 if c % 2 == 0 else rng.choice([1, 2, padlen - 1, padlen])     # samples in the extra interval
         gap_s = ep[-1][1] + 3 * 2 * U
-        ep2 = ep + [(gap_s, gap_s + 2 * U)]
-        data = [rng.randint(-9, 9) for _ in ts]
-        x = nap.Tsd(G.arr(ts), np.array(data, dtype=float), time_support=iset(nap, ep2))
-        inp = {"ts": ts, "ep": ep2, "data": data}
+        extra = [gap_s + U + j * 2 * U for j in range(nshort)]
+        where = rng.choice(["last", "first", "middle"]) if (len(ep) > 1 and nshort == 0) else rng.choice(["last", "first"])
+        width = max(nshort, 1) * 2 * U
+        if where == "last":
+            ts2, ep2 = ts + extra, ep + [(gap_s, gap_s + width)]
+        elif where == "first":
+            sh = ts[0] - 4 * 2 * U - width
+            ts2, ep2 = [t - gap_s + sh for t in extra] + ts, [(sh, sh + width)] + ep
+        else:       # an empty interval strictly between the two epochs (their samples are >= 2 steps apart)
+            ts2, ep2 = ts, [ep[0], (ep[0][1] + U // 2, ep[1][0] - U // 2), ep[1]]
+        rows = epoch_rows(ts2, ep2)
+        data = [rng.randint(-9, 9) for _ in ts2]
+        x = nap.Tsd(G.arr(ts2), np.array(data, dtype=float), time_support=iset(nap, ep2))
+        if [C.to_ns(t) for t in x.t] != ts2 or support_of(x) != ep2:
+            raise RuntimeError("harness: could not build the input %r on %r" % (ts2, ep2))
+        inp = {"ts": ts2, "ep": ep2, "data": data}
+        empty, short = nshort == 0, nshort > 0
         res.case(("empty_epoch", c), nontrivial=True)
-        res.count("empty_epoch_filter_cases")
-        calls = (("smooth", lambda: x.smooth(2 * U / 1e9 * 1.0001, size_factor=3)),
-                 ("sinc", lambda: nap.apply_lowpass_filter(x, 0.2 * fs, fs=fs, mode="sinc", transition_bandwidth=0.5)))
+        res.count("empty_epoch_filter_cases" if empty else "short_epoch_butter_cases")
+        calls = []
+        if empty:
+            calls += [("smooth", lambda x_: x_.smooth(2 * U / 1e9 * 1.0001, size_factor=3)),
+                      ("sinc", lambda x_: nap.apply_lowpass_filter(x_, 0.2 * fs, fs=fs, mode="sinc", transition_bandwidth=0.5))]
+        calls.append(("butter", lambda x_: FUN[ftype](x_, cutoff, fs=fs, mode="butter", order=order)))
         for nm, f in calls:
+            key = {"op": nm, "empty_epoch": empty, "short_epoch": short}
+            if nm == "butter":
+                key["filter"] = ftype
             try:
-                r = f()
-                if [C.to_ns(t) for t in r.t] != ts or support_of(r) != ep2:
-                    res.violations.append({"key": {"op": nm, "part": "time_axis", "empty_epoch": True}, "what": nm + " changed the time axis", "input": inp})
+                r = f(x)
             except Exception as ex:
-                res.violations.append({"key": {"op": nm, "part": "exception", "empty_epoch": True}, "what": "%s raised %s: %s" % (nm, type(ex).__name__, str(ex)[:80]),
-                                       "input": inp, "impl": type(ex).__name__})
-        try:
-            nap.apply_lowpass_filter(x, 0.2 * fs, fs=fs, mode="butter", order=2)
-            res.count("butter_empty_epoch_ok")
-        except Exception:
-            res.count("butter_empty_epoch_raises")    # SciPy's sosfiltfilt refuses slices not longer than padlen (incl. empty): not claimed
+                res.count(nm + ("_empty_epoch_raises" if empty else "_short_epoch_raises"))
+                res.violations.append({"key": dict(key, part="exception", exception=type(ex).__name__),
+                                       "what": "%s raised %s (%s) for the WHOLE series because one interval of the support holds %s"
+                                               % (nm, type(ex).__name__, str(ex)[:70], "no sample" if empty else "%d sample(s), not more than sosfiltfilt's padlen %d" % (nshort, padlen)),
+                                       "input": dict(inp, filter=ftype, order=order), "impl": type(ex).__name__})
+                continue
+            res.count(nm + ("_empty_epoch_ok" if empty else "_short_epoch_ok"))
+            if [C.to_ns(t) for t in r.t] != ts2 or support_of(r) != ep2:
+                res.violations.append({"key": dict(key, part="time_axis"), "what": nm + " changed the time axis", "input": inp})
+                continue
+            # the full intervals' outputs are what they are without the empty / short interval (smooth derives its window
+            # from the rate of the object it is given, which restriction changes: not compared)
+            for q, rw in enumerate(rows):
+                if len(rw) <= padlen or nm == "smooth":
+                    continue
+                one = f(x.restrict(nap.IntervalSet(ep2[q][0] / 1e9, ep2[q][1] / 1e9))).values
+                if not np.array_equal(np.asarray(one), np.asarray(r.values)[rw]):
+                    res.violations.append({"key": dict(key, part="independence_restrict"), "what": nm + ": filtering the restricted epoch differs from the epoch's rows of the whole result",
+                                           "input": dict(inp, epoch=q)})
 
 
 def part_sinc_model(res, nap, tier, rng):
@@ -541,10 +644,17 @@ def part_sinc_model(res, nap, tier, rng):
         x = nap.Tsd(G.arr(ts), np.array(col, dtype=float), time_support=iset(nap, ep))
         o = []
         for j, k in enumerate((lp0, hp, bs, bp)):
-            r = ints(x.convolve(np.array(k, dtype=float)).values)
+            try:
+                r = ints(x.convolve(np.array(k, dtype=float)).values)
+            except Exception as ex:
+                res.violations.append({"key": {"op": "convolve", "part": "exception", "exception": type(ex).__name__, "integer_kernel": True},
+                                       "what": "convolve raised %s: %s" % (type(ex).__name__, str(ex)[:80]), "input": dict(inp, kernel=k)})
+                r = None
             o.append(r)
             if r != parse(out2[4 * n + j])[0]:
                 res.disagreements.append({"op": "sinc_filter", "input": dict(inp, kernel=k), "impl": r, "model": parse(out2[4 * n + j])[0]})
+        if any(r is None for r in o):
+            continue
         if [p + q for p, q in zip(o[0], o[1])] != [u * v for v in col]:
             res.violations.append({"key": {"op": "sinc", "part": "lp_plus_hp", "integer_kernel": True}, "what": "conv(x, k) + conv(x, u*delta - k) != u*x for an odd kernel, 'both' trim",
                                    "input": inp})
@@ -571,8 +681,8 @@ def part_butter(res, nap, tier, rng):
         f2 = f1 + rng.choice([0.05, 0.1, 0.14]) * fs
         cutoff = f1 if ftype in ("lowpass", "highpass") else (f1, f2)
         sos = butter(order, cutoff, btype=ftype, fs=fs, output="sos")
-        padlen = 3 * (2 * len(sos) + 1 - min((sos[:, 2] == 0).sum(), (sos[:, 5] == 0).sum()))
-        ts, ep = regular_case(rng, padlen + 1)
+        padlen = butter_padlen(sos)
+        ts, ep = regular_case(rng, padlen + 1)      # 1..padlen samples and empty intervals: part_empty_epoch
         kind = rng.choice(["Tsd", "TsdFrame", "TsdTensor"])
         dshape = {"Tsd": (), "TsdFrame": (2,), "TsdTensor": (2, 2)}[kind]
         nc = int(np.prod(dshape)) if dshape else 1
@@ -589,7 +699,8 @@ def part_butter(res, nap, tier, rng):
         try:
             r = FUN[ftype](x, cutoff, fs=fs, mode="butter", order=order)
         except Exception as ex:
-            res.violations.append({"key": dict(kk, part="exception"), "what": "butterworth filter raised %s: %s" % (type(ex).__name__, str(ex)[:80]), "input": inp})
+            res.violations.append({"key": dict(kk, part="exception", exception=type(ex).__name__, empty_epoch=False, short_epoch=False),
+                                   "what": "butterworth filter raised %s: %s" % (type(ex).__name__, str(ex)[:80]), "input": inp})
             continue
         if not axis_ok(r, x, ts, ep):
             res.violations.append({"key": dict(kk, part="time_axis"), "what": "butterworth filter changed timestamps / support / shape / columns", "input": inp})
@@ -598,8 +709,9 @@ def part_butter(res, nap, tier, rng):
         for q, rw in enumerate(rows):
             e = np.stack([sosfiltfilt(sos, np.array([data[i][j] for j in rw], dtype=float)) for i in range(nc)], axis=1)
             if not np.array_equal(g[rw], e):
-                res.violations.append({"key": dict(kk, part="per_epoch"), "what": "an epoch's output is not sosfiltfilt applied to that epoch's samples alone",
-                                       "input": dict(inp, epoch=q), "impl": g[rw].tolist(), "expected": e.tolist()})
+                # correspondence with the model's butter_epochs, F := scipy.signal.sosfiltfilt (the statement does not name the routine)
+                res.disagreements.append({"op": "butter(F := scipy sosfiltfilt on the epoch's samples alone)", "input": dict(inp, epoch=q),
+                                          "impl": g[rw].tolist(), "model": e.tolist()})
                 break
         if len(ep) > 1:
             q = rng.randrange(len(ep))
@@ -626,8 +738,10 @@ def part_butter(res, nap, tier, rng):
             r0 = FUN[ftype](x, cutoff, mode="butter", order=order)     # fs inferred from the rate
             sos0 = butter(order, cutoff, btype=ftype, fs=x.rate, output="sos")
             e0 = np.stack([sosfiltfilt(sos0, np.array(data[i], dtype=float)) for i in range(nc)], axis=1)
-            if not np.array_equal(np.asarray(r0.values).reshape(T, nc), e0):
-                res.violations.append({"key": dict(kk, part="fs_default"), "what": "fs=None does not use the series' rate", "input": inp})
+            if not axis_ok(r0, x, ts, ep):
+                res.violations.append({"key": dict(kk, part="time_axis", fs_default=True), "what": "butterworth filter (fs=None) changed timestamps / support / shape / columns", "input": inp})
+            elif not np.array_equal(np.asarray(r0.values).reshape(T, nc), e0):
+                res.disagreements.append({"op": "butter(fs=None: F := sosfiltfilt designed for the series' rate)", "input": inp})
         if c % 37 == 0:
             res.sample({"butter": ftype, "order": order, "epochs": [len(r_) for r_ in rows], "kind": kind})
     # ---- correspondence of the per-epoch bookkeeping: sosfiltfilt replaced by an integer stand-in (in this process only)
@@ -678,18 +792,23 @@ def run(res, tier, seed):
     nap = _nap()
     warnings.simplefilter("ignore")
     res.rule = ("(1) convolve, COMPLETE small space: all sorted multisets of 1-4 timestamps + all larger subsets on an N-point dyadic lattice x all canonical supports of <= m intervals with endpoints on "
-                "the lattice (samples on starts/ends, intervals with 0/1/2.. samples, shorter than the kernel) x 5 kernels of length 1..5 (odd and even) x 3 trims, through BOTH routes "
+                "the lattice (samples on starts/ends, intervals with 0/1/2.. samples, shorter than the kernel, NO sample inside any interval) x 5 kernels of length 1..5 (odd and even) x 3 trims, through BOTH routes "
                 "(time support, ep= argument); thorough: N=6, m=3 complete; quick: N=5, m=2 complete + 1200 sampled pairs of the N=6, m=3 space x 2 kernels. (2) seeded random: Tsd/TsdFrame/TsdTensor x 1-D/2-D integer kernels "
-                "(length 1..9) x trims on 1-5 epochs of 1..14 samples with duplicate timestamps; exact equality with the brute-force statement oracle and with the extracted model; "
-                "linearity (a*x+b*y) and independence (other epochs overwritten) through the public API. (3) smooth and the four windowed-sinc filters (real kernels, tolerance 1e-9): "
-                "per-epoch oracle, time axis, lp+hp = id, bp+bs = id, independence, linearity; integer kernels: model's spectral inversion / band kernels vs implementation, exact. "
-                "(4) Butterworth x4 types x orders 1-4: each epoch == sosfiltfilt on that epoch alone (bit-exact), restricted-object equality, independence, linearity (tolerance); "
-                "bookkeeping correspondence with an integer stand-in for sosfiltfilt. (5) smooth / sinc on a support with an interval holding no sample. non-trivial = more than one epoch (and no empty epoch in part 1)")
+                "(length 1..9) x trims on 1-5 epochs of 1..14 samples with duplicate timestamps; exact equality with the brute-force statement oracle (even kernel, 'both': either split) and with the extracted model; "
+                "linearity (a*x+b*y) and independence (other epochs overwritten) through the public API. (3) smooth and the four windowed-sinc filters (real kernels, tolerance 1e-12 relative): "
+                "time axis, independence and linearity for smooth and for EACH of the four filters, lp+hp = id, bp+bs = id; three kernel regimes: 9..41 taps on epochs of 1..25 samples, the default "
+                "transition bandwidth (201 taps) / default size_factor on epochs of 150..440 samples plus a short one, 801 taps on 12000 samples (SciPy's FFT convolution); integer kernels: model's spectral "
+                "inversion / band kernels vs implementation, exact. (4) Butterworth x4 types x orders 1-4: time axis, restricted-object equality, independence, linearity (tolerance); correspondence: each epoch == "
+                "sosfiltfilt on that epoch alone (bit-exact), bookkeeping with an integer stand-in for sosfiltfilt. (5) a support with an interval holding no sample (first / middle / last) through smooth / sinc / "
+                "Butterworth, and with an interval of 1..padlen samples through Butterworth: no exception, time axis, the full intervals filtered as on their own. "
+                "non-trivial = more than one epoch (and no empty epoch in part 1)")
     res.exhaustive = True
     part_exhaustive(res, nap, tier, random.Random(seed * 11 + 1))
     part_random(res, nap, tier, random.Random(seed * 11 + 2))
     part_sinc_model(res, nap, tier, random.Random(seed * 11 + 3))
     part_smooth_sinc(res, nap, tier, random.Random(seed * 11 + 4))
+    part_smooth_sinc(res, nap, tier, random.Random(seed * 11 + 7), variant="default_bw")
+    part_smooth_sinc(res, nap, tier, random.Random(seed * 11 + 8), variant="fft")
     part_butter(res, nap, tier, random.Random(seed * 11 + 5))
     part_empty_epoch(res, nap, tier, random.Random(seed * 11 + 6))
 
@@ -722,6 +841,21 @@ def replay(payload):
         print("impl    ", got)
         print("expected", exp)
         return 0 if got == exp else 1
+    if v.get("key", {}).get("op") == "butter" and "filter" in inp and "order" in inp and "ep" in inp and "cutoff" not in inp:
+        # an interval of the support holding no / too few samples (part_empty_epoch)
+        fs = 1e9 / (2 * U)
+        ftype, ep = inp["filter"], [tuple(e) for e in inp["ep"]]
+        cutoff = 0.2 * fs if ftype in ("lowpass", "highpass") else (0.1 * fs, 0.2 * fs)
+        x = nap.Tsd(G.arr(inp["ts"]), np.array(inp["data"], dtype=float), time_support=iset(nap, ep))
+        print("samples per interval", [len(r) for r in epoch_rows(inp["ts"], ep)], "filter", ftype, "order", inp["order"])
+        try:
+            r = getattr(nap, "apply_%s_filter" % ftype)(x, cutoff, fs=fs, mode="butter", order=inp["order"])
+        except Exception as ex:
+            print("impl     raised %s: %s" % (type(ex).__name__, ex))
+            print("expected every interval filtered on its own; an interval's length must not decide whether the others get an output")
+            return 1
+        print("impl     returned %d samples on %d intervals" % (len(r), len(r.time_support)))
+        return 0
     print("replay input:", inp)
     print("what:", v.get("what"))
     return 1
